@@ -47,6 +47,14 @@ def gen_cases(ctx):
             if len(cs) > 3 and rng.random() < 0.7:
                 cs = rng.sample(cs, rng.randrange(0, 3))
             cases.append(mk_case(kind, rand_params(rng, kind), n, ts, cs, rand_vec(rng, n, "generic"), rng.choice([10, 1])))
+    # the same operator, targets and controls applied first to registers of other sizes on the same thread (a sweep over sizes), on both paths
+    for kind in KINDS:
+        for n in (3, 4):
+            pl = placements(n, kind)
+            ts, cs = rng.choice(pl)
+            for thr in (10, 1):
+                cases.append(mk_case(kind, rand_params(rng, kind), n, list(ts), list(cs), rand_vec(rng, n, "generic"), thr))
+                cases[-1]["warm_sizes"] = [n + 1, n + 2] if rng.random() < 0.5 else [n + 2, max(n - 1, max(list(ts) + list(cs)) + 1)]
     # tiny / mixed-magnitude amplitudes (a gate is linear: nothing may be "skipped as zero"), and a control listed twice
     # (the simulator accepts it as the same control), on both paths
     for kind in KINDS:
